@@ -256,4 +256,25 @@ PROPS = {
                  "rules, buffer, partition)."),
         "assumptions": [],
     },
+    "C14": {
+        "src": "c14", "engine": "rc", "level": "exploration",
+        "technique": "property-based testing (rapidcheck) against independent reference implementations (OpenSSL digests, bitwise CRC-32, long-double statistics, hand-written numeral table)",
+        "level_text": ("For generated buffers (0-24 bytes with ranges drawn densely around the borders, and up to 5000 bytes "
+                       "in 1-3 contiguous blocks) a rule set of 8-60 shuffled requests - hash.md5/sha1/sha256/crc32/"
+                       "checksum32 in range and string form, repeated and cross-algorithm requests on the same range (digest "
+                       "cache), math.entropy/mean/deviation/count/percentage/mode/serial_correlation/monte_carlo_pi, "
+                       "min/max/abs/to_number/to_string/in_range, string.to_int and string.length - is scanned and every "
+                       "request rule (`f(args) == expected`, a tolerance interval for floats, or `not defined f(args)`) must "
+                       "match."),
+        "level_note": ("Trusts the reference implementations in props/c14.cpp; statistics of an empty range are not judged; "
+                       "serial correlation and Monte Carlo are checked on single-block data only (their definitions are per "
+                       "buffer); float results are compared with a relative tolerance (1e-9, 1e-6 for entropy / serial "
+                       "correlation, 1e-5 for percentage which the module computes in float)."),
+        "quick": (1500, 40), "thorough": (60000, 600),
+        "floor": 100,
+        "rule": ("case = a buffer, a block partition and 8-60 requests, one rule each. Non-trivial: >= 3 requests address "
+                 "a non-empty range that touches or passes the end of the buffer or contains a byte >= 0x80 (or are "
+                 "string.to_int / string.length cases); distinct by hash of (request rules, buffer, partition)."),
+        "assumptions": ["math.mode may return any most-frequent byte", "an offset equal to the buffer size lies outside the buffer (undefined)"],
+    },
 }
